@@ -120,6 +120,14 @@ CHECKS = {
                      'posted to POST /v1/peer/<ip>/json_to_bin in an Established session, the produced attribute must denote the same '
                      'value under an independent reading and render the identical text again; all ordered pairs of kinds in one request.',
                 ref='7 C17', note=E3_NOTE),
+    'C10': dict(level='model_checking', engine='E1',
+                technique='exhaustive single-mutation hostile pool x session states delivered to the real session objects, differential against a pristine agent, with the C02 recovery continuation',
+                text='Every byte string of the unit tests and the reference messages, plus all single-octet mutations and truncations of the '
+                     'seeds, framed correctly as every message type and as the value of 10 attribute types, is delivered in every session '
+                     'state that can receive bytes (incl. a hold-time-0 and a second session): no escaping exception, no step-budget overrun, '
+                     'at most one report per message, an UPDATE body never disturbs an Established session, the known-good suite behind it is '
+                     'handled as by a pristine agent, and a closed session recovers under the cooperative continuation.',
+                ref='7 C10', note=E1_NOTE),
 }
 
 NOT_YET = 'check not built yet in this session (see DESIGN.md section 7 for the plan); not claimed'
